@@ -184,8 +184,7 @@ impl<'lifespan> Index<&ElementSpecification<'lifespan>> for ChemicalCompositionM
 
     #[inline]
     fn index(&self, key: &ElementSpecification<'lifespan>) -> &Self::Output {
-        let ent = self.composition.get(key);
-        ent.unwrap()
+        self.composition.get(key).unwrap_or(&ZERO)
     }
 }
 
